@@ -25,6 +25,14 @@ def run(chk):
         for calls in ([{"op": "new"}, {"op": "begin", "token": [97]}, {"op": "commit", "token": [97], "amount": [1]}, {"op": "read_card"}],
                       [{"op": "begin", "token": [97]}, {"op": "cancel", "token": [97]}, {"op": "configure"}]):
             extremes.append({"config": cfg, "calls": calls, "plan": {"exchanges": [], "default": {"o": "ok", "status": {"amount": [1]}, "uid": [1, 2, 3, 4]}}})
+    # the pending query answered by another packet first (the client gives the exchange up), then whatever follows
+    okp = {"o": "ok", "status": {"amount": [1]}, "uid": [1, 2, 3, 4]}
+    for kind in ("intermediate", "completion", "status"):
+        for calls in ([{"op": "begin", "token": [97]}, {"op": "commit", "token": [97], "amount": [1]}, {"op": "read_card"}],
+                      [{"op": "begin", "token": [97]}, {"op": "cancel", "token": [97]}, {"op": "read_card"}], [{"op": "configure"}, {"op": "read_card"}]):
+            n = 3 if calls[0]["op"] == "configure" else 2
+            extremes.append({"config": {"terminal_id": "11112222"}, "calls": calls,
+                             "plan": {"exchanges": [okp] * n + [{"o": "unexpected", "kind": kind}], "default": okp}})
     total = 0
     for label, binary in (("debug", dbg), ("release", rel)):
         out = cl.run_scenarios(binary, sc + extremes, wd, "c10" + label)
